@@ -231,6 +231,27 @@ def shard(ctx):
                     break
             else:
                 ctx.res.distinct.add(("cycle", ti, "same"))
+    # ---- nested parameterised rules: the same inner call reached twice from one outer call with different arguments, in either line order
+    if ctx.mine(3):
+        pdoc = json.dumps({"five": 5, "fifty": 50, "l": [1, 2, 30], "m": {"a": 5, "b": 50}})
+        heads = "rule inner(v) {\n    %v <= 10\n}\nrule mid(x) {\n    inner(%x)\n}\nrule mid2(x, y) {\n    inner(%x) or inner(%y)\n}\n"
+        bodies = [("mid(%a)", "mid(%b)"), ("mid(%a)", "not mid(%b)"), ("mid2(%a, %a)", "mid2(%b, %b)"), ("inner(%a)", "mid(%b)")]
+        tops = ["outer(five, fifty)", "outer(fifty, five)", "outer(m.a, m.b)", "outer(l[0], l[2])"]
+        for bi, (l1, l2) in enumerate(bodies):
+            for top in tops:
+                texts = [heads + "rule outer(a, b) {\n    %s\n    %s\n}\nrule top {\n    %s\n}\n" % (x, y, top) for x, y in ((l1, l2), (l2, l1))]
+                sts = [status_map(ctx, tx, pdoc)[0] for tx in texts]
+                ctx.res.cases += 2
+                ctx.res.counts["nested_call_order_pairs"] += 1
+                if not all(isinstance(x, dict) for x in sts):
+                    ctx.inconclusive("nested-call-gadget-error")
+                    continue
+                why = compare(sts[0], sts[1], ("same",))
+                if why:
+                    ctx.violation("order:nested-parameterised-calls", "%s\n--- base\n%s--- variant\n%s" % (why, texts[0], texts[1]),
+                                  {"base": texts[0], "variant": texts[1], "data": pdoc, "rel": ["same"]})
+                else:
+                    ctx.res.distinct.add(("nested-calls", bi, top, sts[0].get("top")))
     nbase = 90 if ctx.quick else 2600
     vorders = set()
     rpatterns = set()
